@@ -26,6 +26,7 @@ type EnvOpt struct {
 	ExportedOnly bool // only exported fields (GoString)
 	NoPrivateExt bool // ext structs have exported fields only
 	MaxStructs   int
+	DistinctExt  bool // imported packages have distinct package names
 	NoFloatKeys  bool
 	// Avoid lists finding ids whose region the generator must not enter.
 	Avoid map[string]bool
@@ -44,7 +45,7 @@ func DrawEnv(t *rapid.T, opt EnvOpt) *Env {
 	e := &Env{Opt: opt}
 	if !opt.NoExt {
 		e.Ext = []*ExtPkg{{Dir: "ext1", Name: "ext"}, {Dir: "x/ext", Name: "ext"}}
-		if rapid.IntRange(0, 3).Draw(t, "extnames") == 0 {
+		if opt.DistinctExt || rapid.IntRange(0, 3).Draw(t, "extnames") == 0 {
 			e.Ext[1] = &ExtPkg{Dir: "x/other", Name: "other"}
 		}
 		for i, xp := range e.Ext {
